@@ -210,6 +210,9 @@ package stor
 //@   ensures! published_when_reserved: int64(offset >> uint64(s.shift)) <= gChunkAtAdd
 //@   ensures! exact_slice: len(buf) == n && cap(buf) == n && ref(buf) == ref(cks(s)[offset >> uint64(s.shift)]) && off(buf) == off(cks(s)[offset >> uint64(s.shift)]) + int(offset & (s.chunksize - 1))
 //@   ensures! immutable: s.shift == old(s.shift) && s.chunksize == old(s.chunksize)
+//@   ensures! inv: storInvC(s)
+//@   ensures! chunk_exists: int(offset >> uint64(s.shift)) < len(cks(s))
+//@   ensures! inside_chunk: (offset & (s.chunksize - 1)) + uint64(n) <= s.chunksize
 //@   guarantee inv_kept: storInvC(s)
 //@   guarantee chunk_monotone: s.allocChunk.v == old(s.allocChunk.v) || s.allocChunk.v == old(s.allocChunk.v) + 1
 //@   guarantee publish_after_map: s.allocChunk.v != old(s.allocChunk.v) ==> s.size.v == old(s.size.v) && len(cks(s)) > s.allocChunk.v
